@@ -58,6 +58,8 @@ def generate(rng):
     if min(cfg["n"], cfg["n2"]) >= 2 and rng.random() < 0.35:
         deco = sample_constraints(rng, min(cfg["n"], cfg["n2"]))
     cfg["decorate"] = deco
+    if deco is not None and rng.random() < 0.25:
+        cfg["bystander"] = {"at": rng.randint(0, 5), "deco": sample_constraints(rng, cfg["n2"], max_pairs=3)}
     cfg["layouts"] = sample_layouts(rng)
     if uses_precomputed(cfg):
         # a user-supplied matrix can come in any memory order and need not be exactly symmetric (e.g. a transport cost)
@@ -330,7 +332,42 @@ def execute(record):
         if deco:
             inner_cg = model._compute_grads
 
+            by = cfg.get("bystander")
+            by_state = {"k": 0}
+
+            def run_bystander():
+                # two tasks: a SECOND decorated estimator (own object, own data, own pairs) is fitted by another task, scheduled
+                # between "batch yielded" and "gradient computed" of one step of the estimator under test
+                import copy as _cp
+                c2 = _cp.deepcopy(cfg)
+                c2["params"]["random_state"] = int(c2["params"].get("random_state") or 0) + 1
+                c2["params"]["verbose"] = False
+                Xo, Ao = second_dataset(cfg)
+                saved = (world.n_steps, world.opt_raise_at, world.gemini_fault)
+                world.opt_raise_at, world.gemini_fault = None, None
+                try:
+                    other = build_model(c2, log)
+                    decorate(other, by["deco"])
+                    log.emit("TASK", task="bystander", phase="begin")
+                    other.fit(Xo, Ao)
+                    log.emit("TASK", task="bystander", phase="end")
+                    res.fault("interleaved_second_estimator_fit")
+                except (SimFault, SimBudget):
+                    raise
+                except Exception as e:
+                    if is_harness_frame(e):
+                        raise
+                    res.probe("bystander_raised:" + type(e).__name__)
+                finally:
+                    world.n_steps, world.opt_raise_at, world.gemini_fault = saved
+
             def outer_cg(Xb, y_pred, gradient):
+                if by is not None:
+                    if by_state["k"] == by["at"]:
+                        by_state["k"] += 1
+                        run_bystander()
+                    else:
+                        by_state["k"] += 1
                 chk.on_compute_grads(Xb)
                 return inner_cg(Xb, y_pred, gradient)
             model._compute_grads = outer_cg
